@@ -25,7 +25,21 @@ MASKS = {"plus": 4, "t.plus": 4, "t.lplus": 4, "t.rplus": 4, "f_rplus": 4, "f_lp
          "minus": 4, "f_rminus": 4, "f_lminus": 4, "f_minus": 4, "f_compose": 4, "f_between": 4,
          "f_inverse": 2, "f_log": 2, "f_exp": 2, "f_act": 4,"exp": 2, "log": 2, "inverse": 2, "compose": 4, "between": 4, "rminus": 4, "lminus": 4,
          "rplus": 4, "lplus": 4, "act": 4}
-NO_ROTATION = ("R1", "R2", "R3", "R5")
+class _NoRot:
+    def __contains__(self, g):
+        return g in ("R1", "R2", "R3", "R5", "R16") or g.startswith("B:")
+
+
+NO_ROTATION = _NoRot()
+
+
+ALG = {"SO2": 2, "SE2": 3, "SO3": 3, "SE3": 4, "SE_2_3": 5, "SGal3": 5, "R1": 2, "R2": 3, "R3": 4, "R5": 6, "R16": 17}
+
+
+def alg_size(group):
+    if group.startswith("B:"):
+        return sum(ALG[e] for e in group[2:].split(","))
+    return ALG[group]
 
 
 def requests_for(r, group, n, dbg, storages=("o",), norm="valid", ops=None):
@@ -46,11 +60,7 @@ def requests_for(r, group, n, dbg, storages=("o",), norm="valid", ops=None):
                 out.append((gen.req(dbg, st, group, op, 0, []), [op, "mask0", st]))
                 continue
             if op == "vee":
-                m = gen.GROUPS[group]["tsize"]
-                if group == "SO2":
-                    m = 2
-                elif group in ("SE2", "SO3"):
-                    m = 3
+                m = alg_size(group)
                 a = [r.choice([0.0, 1.0, -2.5, r.uniform(-10, 10)]) for _ in range(m * m)]
                 out.append((gen.req(dbg, st, group, op, 0, a), [op, "mask0", st, "alg:generic"]))
                 continue
@@ -280,6 +290,7 @@ TOL_CELLS = {("SE_2_3", "lplus"), ("SE_2_3", "lminus"), ("SGal3", "lplus"), ("SG
              ("SE_2_3", "avg_w"), ("SE_2_3", "avg_fl"), ("SE_2_3", "avg_fr"),
              ("SGal3", "avg_w"), ("SGal3", "avg_fl"), ("SGal3", "avg_fr"),
              ("SGal3", "bracket"), ("SGal3", "inner"), ("SGal3", "sqwnorm"), ("SGal3", "wnorm")}
+GEMM_OPS = {"lplus", "lminus", "bracket", "inner", "sqwnorm", "wnorm", "avg_w", "avg_fl", "avg_fr"}
 TOL_REL = 1e-12
 
 
@@ -296,6 +307,8 @@ def compare(impl, model, cell=None):
         return True, ""
     if cell is not None:
         cell = (cell[0], CANON.get(cell[1], cell[1]))
+        if cell[0].startswith("B:") and gen.GROUPS[cell[0]]["dof"] >= 8 and cell[1] in GEMM_OPS:
+            cell = ("SE_2_3", "lplus")        # same treatment: rounding tolerance
     if cell in TOL_CELLS:
         ti, tm = impl.split(), model.split()
         if ti[:1] == tm[:1] == ["ok"] and len(ti) == len(tm):
